@@ -422,6 +422,18 @@ def check_split(run, pkg):
                 oku = False
                 wit_u = ("the direction is taken from the integer vector n, but q = 2 pi n / L per axis: in a 10 x 16 box n = (1, 1) gives n/|n| = (0.707, 0.707) "
                          "while q/|q| = (0.848, 0.530) - L is not parallel to q and T is not orthogonal to it")
+        try:
+            # the columns the unit vector is read from are filled by conditional_sq: they must hold the scaled wave vector
+            from . import c13 as _c13
+            it_sq = _c13.sq_interp(pkg, "vector")
+            df_sq = [e.data["value"] for e in it_sq.events if e.kind == "assign" and e.data["name"] == "sqresults" and e.data["value"][0] == "call" and e.data["value"][1] == "pandas.DataFrame"]
+            st_sq = {e.data["target"][2][1]: e for e in stores(it_sq) if df_sq and e.data["target"][1] == df_sq[0] and is_const(e.data["target"][2])}
+            Qsq = is_rowwise_norm(st_sq["q"].data["value"]) if "q" in st_sq else None
+            _c13.q_components(run, it_sq, short(it_sq.fi.qual), "vector", Qsq)
+        except AnalysisError:
+            raise
+        except Exception as _e:  # noqa
+            run.ob("R-ALG", fq, "unit-q:source-columns", None, "columns q0..q{d-1} of the transform's table analysed", f"{type(_e).__name__}", loc=loc)
         run.ob("R-ALG", fq, "unit-q", oku, "u = (q0..q{d-1}) / |q| row by row, both from the transform's own table", show(U)[:110], witness=None if oku else wit_u, loc=loc, sound=True)
     # transverse := F - L
     Tt = None
